@@ -1,11 +1,11 @@
 #!/venv/bin/python
 # replay for obligation aioftp.server:Server.user#SEQ::<unit>/exit:I6-holds-a-slot-of-its-user-iff-attached
-# path: srv_value-is-None=0.conn.user-present=T.if@1=T.conn.user-done=T.conn.logged-present=T.get_user-state=2.get_user-error-user=1.conn.current_directory-present=T.conn.current_directory-done=T.if@20=T
+# path: srv_value-is-None=0.conn.user-present=T.if@1=T.conn.user-done=T.conn.logged-present=T.conn.rename_from-present=T.get_user-state=2.get_user-error-user=1.conn.current_directory-present=T.conn.current_directory-done=T.if@21=T
 # run: AIOFTP_REPO=/repo /venv/bin/python /verif/replays/C10_aioftp.server_Server.user_SEQ_unit_exit_I6-holds-a-slot-of-its-user-iff-attached.py
 import os, sys
 sys.path.insert(0, os.path.join(os.environ.get("AIOFTP_REPO", "/repo"), "src"))
 OBLIGATION = 'aioftp.server:Server.user#SEQ::<unit>/exit:I6-holds-a-slot-of-its-user-iff-attached'
-MODEL = {'u_cur_home!20': 'Empty(Seq(String))', 'auth_ok!30': True, 'srv_max!1': 0, 'block_size!0': 1, 'cwd!21': 'Empty(Seq(String))', 'u_err_home!25': 'Empty(Seq(String))', 'srv_value!28': 0, 'srv_rest!23': 0, 'restart_offset!11': 0, 'logged_done!15': True, 'acquired!10': False, 'throttle_per_user_has!33': False, 'user_done!13': True, 'current_directory_present!16': True, 'current_directory_done!17': True, 'logged_present!14': True, 'srv_value!29': 0, 'user_present!12': True}
+MODEL = {'srv_rest!42': 1, 'u_cur_home!39': 'Empty(Seq(String))', 'restart_offset!11': 0, 'srv_max!1': 1, 'auth_ok!30': True, 'cwd!40': 'Empty(Seq(String))', 'acquired!10': True, 'block_size!0': 1, 'srv_value!28': 0, 'u_err_home!44': 'Empty(Seq(String))', 'logged_done!15': True, 'user_done!13': True, 'user_present!12': True, 'throttle_per_user_has!33': False, 'current_directory_done!17': True, 'current_directory_present!16': True, 'rename_from_present!18': True, 'logged_present!14': True, 'srv_value!29': 0}
 SOLVER_NOTE = ''
 
 print("obligation", OBLIGATION, "failed; no concrete failing input could be constructed automatically")
